@@ -116,7 +116,7 @@ def main(run: Run):
     #    weakening (KNOWN-FINDING) or it is a violation.  (b) many unrestricted random schedules
     #    judged directly with the weakened invariants: whatever they reject is a violation.
     sd = seeds(run)
-    few = 30 if thorough else 0
+    few = 12 if thorough else 0
     rnd_wb = simulate(run, "wbkf", 600 if thorough else 120, 30, 8, False, "NoAvoid", s + 3,
                       workers=w if thorough else 1)
     rnd_api = simulate(run, "apikf", 300 if thorough else 60, 16, 0, True, "ApiAlways", s + 4,
@@ -124,9 +124,12 @@ def main(run: Run):
     # batch=1: a rejected trace costs one strict and one weakened TLC run, nothing is re-run
     judge(run, WB, sd + rnd_wb[:few], "wbkf-strict", batch=1)
     # over the API the multi-cut DeleteStatement kills the server process: not executed there
-    judge(run, API, [b for b in sd if '"seed:delstmt-multi"' not in b] + rnd_api[:few], "apikf-strict", batch=1)
+    api_sd = [b for b in sd if '"seed:delstmt-multi"' not in b]
+    api_strict = [b for b in api_sd if '"seed:api-readback"' in b or '"seed:delpol-assigned"' in b]
+    judge(run, API, (api_sd if thorough else api_strict) + rnd_api[:few], "apikf-strict", batch=1)
     judge(run, WB, rnd_wb[few:], "wbkf", cfg=KF, known=None)
-    judge(run, API, rnd_api[few:], "apikf", cfg=KF, known=None)
+    judge(run, API, ([] if thorough else [b for b in api_sd if b not in api_strict]) + rnd_api[few:], "apikf",
+          cfg=KF, known=None)
 
 
 RULE = ("(1) exhaustive: every tiny program of a pool (<= 2 statements, <= 2 conditions each, <= 1 modification, "
